@@ -370,6 +370,9 @@ static void run_world(rng &r, long long idx, long long nreq)
 	int viol_before = O().viol_count;
 	for (long long i = 0; i < nreq && O().viol_count == viol_before; i++) {
 		browser &b = *w.browsers[r.below((uint32_t)nb)];
+		// cookies this application never set, under names next to its own (set by another application of the site, or injected):
+		// "<prefix>_" (an exposed value with an empty key), "<prefix>_zzz" (unknown key), "<prefix>x"
+		if (r.chance(1, 20)) { static char const *suffix[] = { "_", "_zzz", "x", "_" }; jcookie j; j.value = "stray"; j.expires = 0; j.session_cookie = true; std::string nm = w.prefix + suffix[r.below(4)]; b.j.cookies[nm] = j; w.trace.push_back("browser " + std::to_string(b.id) + " carries a stray cookie " + nm); O().count("stray_cookies_planted"); }
 		if (r.chance(1, 7)) attack(w, r); else request(w, b, r);
 		// clock
 		int a = b.m.exists ? std::max(1, eff_age(w, b.m)) : w.def_age;
